@@ -138,7 +138,7 @@ func propC13IllegalSize(t *rapid.T) {
 func mutateMnemonic(t *rapid.T, words []string) (string, string) {
 	w := append([]string(nil), words...)
 	sep := " "
-	kind := rapid.IntRange(0, 10).Draw(t, "mut")
+	kind := rapid.IntRange(0, 11).Draw(t, "mut")
 	label := ""
 	switch kind {
 	case 0:
@@ -198,6 +198,27 @@ func mutateMnemonic(t *rapid.T, words []string) (string, string) {
 			w[i] = w[i][:j] + w[i][j+1:]
 		}
 		label = "letter-edit"
+	case 11:
+		// every gap drawn on its own and wide (indented text, one word per line, CRLF, runs of blanks), with
+		// wide margins: the sentence is the same word sequence, only far longer as a string than its canonical form
+		ws := []string{" ", "\t", "\n", "\r\n", "  ", "    "}
+		gap := func(name string, min, max int) string {
+			n := rapid.IntRange(min, max).Draw(t, name)
+			g := ""
+			for k := 0; k < n; k++ {
+				g += pick(t, "ws", ws)
+			}
+			return g
+		}
+		maxGap := rapid.SampledFrom([]int{2, 6, 12}).Draw(t, "maxGap")
+		out := gap("lead", 0, 20)
+		for i, x := range w {
+			if i > 0 {
+				out += gap("gap", 1, maxGap)
+			}
+			out += x
+		}
+		return out + gap("trail", 0, 20), "respace-wide"
 	case 8:
 		// leading/trailing whitespace
 		return pick(t, "lead", []string{" ", "\n", ""}) + strings.Join(w, " ") + pick(t, "trail", []string{" ", "\t\n", ""}), "padded"
